@@ -383,7 +383,7 @@ def describe_op(api, op):
             "kernel": [k.width, k.height, k.stride_x, k.stride_y, k.dilation_x, k.dilation_y] if k else None,
             "padding": list(op.padding) if op.padding is not None else None,
             "weights": [list(w) for w in op.weights], "biases": [list(w) for w in op.biases],
-            "activation": (op.activation.op_type.name, op.activation.lookup_table_index) if op.activation else None,
+            "activation": (op.activation.op_type.name, op.activation.lookup_table_index, op.activation.min) if op.activation else None,
             "block_config": list(op.block_config),
             "block_traversal": getattr(getattr(op, "block_traversal", None), "name", None)}
 
@@ -464,3 +464,51 @@ def classify_blockjobs(msg, fixed):
 def pipeline_extra(res):
     """runs inside the pipeline worker: per captured stream, the repaired BLOCKDEP values"""
     return [fixed_blockdeps(art.arch, art.npu_ops) for art in res.streams]
+
+
+def rebuild_op(api, d):
+    """inverse of describe_op (for --replay)"""
+    if "dma" in d:
+        return api.NpuDmaOperation(api.NpuAddressRange(*d["dma"]["src"]), api.NpuAddressRange(*d["dma"]["dest"]))
+
+    def fm(f):
+        if f is None:
+            return None
+        m = api.NpuFeatureMap()
+        m.region = f["region"]
+        m.layout = api.NpuLayout[f["layout"]]
+        m.data_type = api.NpuDataType[f["dtype"]]
+        m.shape = api.NpuShape3D(*f["shape"])
+        t = f["tiles"]
+        m.tiles = api.NpuTileBox(height_0=t[0], height_1=t[1], width_0=t[2], addresses=list(t[3]))
+        m.quantization = api.NpuQuantization(scale_f32=0.0625, zero_point=0)
+        if f.get("strides"):
+            m.strides = api.NpuShape3D(*f["strides"])
+        return m
+
+    t = d["type"]
+    if t == "NpuConv2DOperation":
+        op = api.NpuConv2DOperation()
+        op.block_traversal = api.NpuBlockTraversal[d["block_traversal"]]
+    elif t == "NpuConvDepthWiseOperation":
+        op = api.NpuConvDepthWiseOperation()
+    elif t == "NpuPoolingOperation":
+        op = api.NpuPoolingOperation(api.NpuPoolingOp[d["sub_op"]])
+    else:
+        op = api.NpuElementWiseOperation(api.NpuElementWiseOp[d["sub_op"]])
+    op.ifm, op.ifm2, op.ofm = fm(d["ifm"]), fm(d["ifm2"]), fm(d["ofm"])
+    op.ifm2_scalar = d["ifm2_scalar"]
+    if d["kernel"]:
+        op.kernel = api.NpuKernel(*d["kernel"])
+    if d["padding"] is not None:
+        op.padding = api.NpuPadding(*d["padding"])
+    op.weights = [api.NpuAddressRange(*w) for w in d["weights"]]
+    op.biases = [api.NpuAddressRange(*w) for w in d["biases"]]
+    if d["activation"]:
+        act = api.NpuActivation(api.NpuActivationOp[d["activation"][0]])
+        act.lookup_table_index = d["activation"][1]
+        if d["activation"][0] == "NONE_OR_RELU":
+            act.min = d["activation"][2] if len(d["activation"]) > 2 else None
+        op.activation = act
+    op.block_config = api.NpuShape3D(*d["block_config"])
+    return op
